@@ -181,6 +181,12 @@ impl Digest {
     }
 }
 
+pub fn str_hash(s: &str) -> u64 {
+    let mut d = Digest::default();
+    d.str(s);
+    d.0
+}
+
 pub fn hex(b: &[u8]) -> String {
     let mut s = String::with_capacity(b.len() * 2);
     for x in b {
